@@ -5,15 +5,16 @@ namespace MakoModel.Conc
 def fileFS (files : List (Dir × Uri × File)) : FS :=
   fun d u => (files.find? (fun x => x.1 == d && x.2.1 == u)).map (·.2.2)
 
-/-- F11: one directory, plain dict, `filesystem_checks` on; file 0 is version 1 (mtime 98) at clock 100.
+/-- the F11 scenario (repaired in /repo 7ff14da): one directory, plain dict, `filesystem_checks` on; file 0 is version 1 (mtime 98) at clock 100.
     Thread 0: `get 0`.  Thread 1: `tick; write 0 0; get 0`. -/
 def f11Sys : Sys :=
   mkSys ⟨1, true, none⟩ (fileFS [(0, 0, ⟨1, 98, true⟩)]) 100
     (fun t => if t = 0 then [.get 0] else if t = 1 then [.tick, .write 0 0 true, .get 0] else [])
 
 /-- thread 0: H F Acq H2 C (compiles version 1, stamp 100) · thread 1: tick (101), write (version 2, mtime 101),
-    H (miss: thread 0 has not written yet) · thread 0: W Rel · thread 1: F Acq H2 (hit: version 1, no `_check`) Rel -/
-def f11Sched : List Tid := [0, 0, 0, 0, 0, 1, 1, 1, 0, 0, 1, 1, 1, 1]
+    H (miss: thread 0 has not written yet) · thread 0: W Rel · thread 1: F Acq H2 (hit: version 1) Rel – and now
+    `_check`: S (stale) P Acq H2 (miss) C (version 2) W Rel -/
+def f11Sched : List Tid := [0, 0, 0, 0, 0, 1, 1, 1, 0, 0, 1, 1, 1, 1, 1, 1, 1, 1, 1, 1, 1]
 
 /-- bounded collection (`collection_size = 1`, bound ⌊1.5⌋ = 1), three files, two threads -/
 def lruSys : Sys :=
@@ -44,16 +45,16 @@ def firstSys : Sys :=
 
 def firstSched : List Tid :=
   [0, 1, 2, 0, 1, 2, 0, 1, 2, 1, 1, 1, 1, 1, 0, 2, 0, 2, 0, 2, 1, 1, 0, 0, 2, 2, 2, 1, 0, 2, 1, 0,
-   2, 0, 1, 2, 0, 1, 2, 0, 1, 2]
+   2, 0, 1, 2, 0, 1, 2, 0, 1, 2, 0, 1, 2, 0, 1, 2, 0, 1, 2, 0, 1, 2]
 
-/-- F-C16-2: bounded lookup (`collection_size = 1`); thread 0 resolves key 0 twice, thread 1 resolves key 1 -/
+/-- the F-C16-2 scenario (repaired in /repo 1492cc7): bounded lookup (`collection_size = 1`); thread 0 resolves key 0 twice, thread 1 resolves key 1 -/
 def uriSys : Sys :=
   mkSys ⟨1, true, some 1⟩ emptyFS 100
     (fun t => if t = 0 then [.adjust 0, .adjust 0] else if t = 1 then [.adjust 1] else [])
 
-/-- thread 0: test (absent), store · thread 0: test (present) · thread 1: test (absent), store – `_manage_size`
-    evicts key 0 · thread 0: read → `KeyError` -/
-def uriSched : List Tid := [0, 0, 0, 1, 1, 0]
+/-- thread 0: read (absent), store · thread 1: read (absent), store – `_manage_size` evicts key 0 · thread 0: read
+    (absent again: `KeyError` caught), store -/
+def uriSched : List Tid := [0, 0, 1, 1, 0, 0]
 
 /-- the same programs on an unbounded lookup -/
 def uriSysPlain : Sys :=
